@@ -515,6 +515,11 @@ func reflectConvertRule(c *Ctx, r *Report, fn *ssa.Function, call *ssa.Call, siz
 			ok = true
 		}
 	}
+	if !ok {
+		// the test does not branch around the conversion itself but records the failure (err = ErrOverflow) and a
+		// later test of that record leaves: no feasible path leads from the true edge of the test to the conversion
+		ok = overflowEdgeCut(call, operand, typ, sizes)
+	}
 	r.Check(ok, "R03c", name, what, c.Pos(call.Pos()), "guarded by the false edge of Overflow* on a zero value of the same type with the same operand", "a number is converted to the target type through reflect without the matching Overflow test on the same value and type: out-of-range settings wrap around")
 }
 
@@ -670,4 +675,73 @@ func exactDurationRule(c *Ctx, r *Report) {
 			r.Bad("R03d", name, what, c.Pos(fn.Pos()), "reifyDuration does not multiply the integer of a "+tn.typ+" setting into the Duration itself (it goes through another accessor, e.g. toFloat): large second counts are stored inexactly")
 		}
 	}
+}
+
+// overflowEdgeCut: a matching Overflow* call dominates the conversion and the conversion cannot be reached from
+// the edge on which the call answered true (edge-sensitive reachability, thread.go).
+func overflowEdgeCut(call *ssa.Call, operand, typ ssa.Value, sizes types.Sizes) bool {
+	fn := call.Parent()
+	found := false
+	Instrs(fn, false, func(in ssa.Instruction) {
+		oc, isCall := in.(*ssa.Call)
+		if !isCall || found {
+			return
+		}
+		f := oc.Call.StaticCallee()
+		if f == nil || !strings.HasPrefix(f.Name(), "Overflow") || len(oc.Call.Args) != 2 {
+			return
+		}
+		bi, _ := basicOf(operand.Type(), sizes)
+		want := "OverflowInt"
+		if bi.unsigned {
+			want = "OverflowUint"
+		} else if bi.float {
+			want = "OverflowFloat"
+		}
+		if f.Name() != want {
+			return
+		}
+		// every feasible way to the conversion leads through the test
+		if oc.Block() != call.Block() && reachableFromEdge(nil, fn.Blocks[0], call.Block(), map[*ssa.BasicBlock]bool{oc.Block(): true}) {
+			return
+		}
+		if oc.Block() == call.Block() {
+			return
+		}
+		sameOperand := false
+		for _, s := range Sources(oc.Call.Args[1]) {
+			if s == operand {
+				sameOperand = true
+			}
+		}
+		sameType := false
+		for _, s := range Sources(oc.Call.Args[0]) {
+			if zc, isZ := s.(*ssa.Call); isZ {
+				if zf := zc.Call.StaticCallee(); zf != nil && (zf.Name() == "Zero" || zf.Name() == "New") && len(zc.Call.Args) == 1 {
+					if zc.Call.Args[0] == typ || SameValue(zc.Call.Args[0], typ) {
+						sameType = true
+					}
+				}
+			}
+		}
+		if !sameOperand || !sameType {
+			return
+		}
+		// the test's result is branched on directly
+		refs := oc.Referrers()
+		if refs == nil {
+			return
+		}
+		for _, ref := range *refs {
+			ifi, isIf := ref.(*ssa.If)
+			if !isIf || ifi.Cond != ssa.Value(oc) {
+				continue
+			}
+			b := ifi.Block()
+			if !reachableFromEdge(b, b.Succs[0], call.Block(), nil) && reachableFromEdge(b, b.Succs[1], call.Block(), nil) {
+				found = true
+			}
+		}
+	})
+	return found
 }
